@@ -202,6 +202,14 @@ func runAPI(c *harness.Ctx) harness.Result {
 	if r.Intn(3) == 0 && len(p.Function) > 0 {
 		p.Function[0].Name = ""
 	}
+	if r.Intn(4) == 0 && len(p.Function) > 0 {
+		// a real function that happens to be called like the synthetic root of the stack set
+		f := p.Function[r.Intn(len(p.Function))]
+		f.Name, f.SystemName = "root", "root"
+		if r.Intn(2) == 0 {
+			f.Filename = ""
+		}
+	}
 	gran := []string{"functions", "filefunctions", "files", "lines", "addresses"}[r.Intn(5)]
 	noinl, cols := r.Intn(4) == 0, r.Intn(3) == 0
 	index := r.Intn(len(p.SampleType))
@@ -258,10 +266,16 @@ func runWeb(c *harness.Ctx) harness.Result {
 	}
 	defer web.Close()
 	res := harness.Result{NonTrivial: len(p.Sample) >= 2, Sig: "web" + gen.Shape(p), Sample: map[string]any{"profile": gen.Describe(p)}}
-	for k := 0; k < 3; k++ {
+	// three random views, then one view per sample type with everything else equal (requests to
+	// one server that differ only in the selected sample type)
+	sweepGran := []string{"", "functions", "lines"}[r.Intn(3)]
+	for k := 0; k < 3+len(p.SampleType); k++ {
 		gran := []string{"", "functions", "filefunctions", "files", "lines"}[r.Intn(5)]
 		index := r.Intn(len(p.SampleType))
 		noinl := r.Intn(4) == 0
+		if k >= 3 {
+			gran, index, noinl = sweepGran, k-3, false
+		}
 		url := fmt.Sprintf("/flamegraph?si=%s", p.SampleType[index].Type)
 		if gran != "" {
 			url += "&g=" + gran
